@@ -1,6 +1,7 @@
 import FcpptProofs.C02.Refine
 import FcpptProofs.C02.Sound
 import FcpptProofs.C02.Progress
+import FcpptProofs.C02.Total
 set_option linter.unusedSimpArgs false
 set_option linter.unusedVariables false
 /-!
@@ -347,6 +348,31 @@ theorem nonnullable_consumes {g : G} {p : P} {sk : Sk} {inp rest : List Nat} {v 
     rest.length ≤ inp.length ∧ (nullable p = false → rest.length < inp.length) :=
   progress h v rest rfl
 
+/-- **Termination** for well-formed grammars without recursion (`WF0`: no `ref`, no repetition —
+`*`, `+`, the loops of `separator`/`list` — of a nullable body) under a well-formed skipper: the
+implementation model terminates with an outcome on every input, from every start position.
+(Full statement for *recursive* well-formed grammars — Ford's `WF` with no left recursion — is NOT
+proved; soundness, refinement and determinism above do not depend on it: they hold for every fuel.) -/
+theorem wf_total_nonrec (g : G) (p : P) (hw : WF0 p) (sk : Sk) (hsk : SkWF sk) (s : List Nat) (pos : Nat) :
+    ∃ f m, M.run g s f p sk pos = some m := by
+  obtain ⟨x, hx⟩ := parse_total g (size p) p (Nat.le_refl _) hw sk hsk (s.drop pos)
+  exact let ⟨f, m, hm, _⟩ := (run_iff_derives g s p sk pos x).mpr hx; ⟨f, m, hm⟩
+
+/-- … and so do the string entry points -/
+theorem wf_total_nonrec_string (g : G) (p : P) (hw : WF0 p) (sk : Sk) (hsk : SkWF sk) (s : List Nat) :
+    ∃ f t, M.parseString g f p sk s = some t := by
+  obtain ⟨x0, h0⟩ := skip_total hsk s
+  cases x0 with
+  | err ft => exact ⟨_, _, ((parseString_iff g p sk s _).mpr (.skipErr h0)).choose_spec⟩
+  | ok r0 =>
+    obtain ⟨x, hx⟩ := parse_total g (size p) p (Nat.le_refl _) hw sk hsk r0
+    cases x with
+    | err ft => exact ⟨_, _, ((parseString_iff g p sk s _).mpr (.err h0 hx)).choose_spec⟩
+    | ok v rest =>
+      cases rest with
+      | nil => exact ⟨_, _, ((parseString_iff g p sk s _).mpr (.ok h0 hx)).choose_spec⟩
+      | cons c r => exact ⟨_, _, ((parseString_iff g p sk s _).mpr (.rest h0 hx)).choose_spec⟩
+
 /-! ## non-vacuity: concrete grammars run through the model -/
 
 def exG : G := { rules := fun i => if i = 0 then .alt (.seq (.lit 97) (.ref 0)) .eps else .fail,
@@ -360,6 +386,9 @@ example : M.parseString exG 20 (.lit 97) .eps [97, 98] = some (.err false) := by
 -- fatal stops the alternative; without `fatal` the right branch is taken
 example : M.parseString exG 20 (.alt (.seq (.lit 97) (.fatal (.lit 98))) .any) .eps [97] = some (.err true) := by decide
 example : M.parseString exG 20 (.alt (.seq (.lit 97) (.lit 98)) .any) .eps [97] = some (.ok (.inr (.ch 97))) := by decide
+-- a well-formed non-recursive parser and skipper (hypotheses of `wf_total_nonrec`)
+example : WF0 (.list (.lit 97) (.plus (.cset [98, 99])) (.lit 120) (.lit 97)) ∧ SkWF (.rep (.cset [32])) := by
+  simp [WF0, SkWF, nullable, skNullable]
 -- the hypotheses of the clause theorems are satisfiable
 example : Derives exG (.lit 97) .eps [97] (.ok .unit []) := .litOk _ _ _
 example : Derives exG (.fatal (.lit 97)) .eps [98] (.err true) := .fatalErr (.litNo _ _ _ _ (by decide))
